@@ -1,6 +1,6 @@
 (* The only file with extraction directives.  Compiled by ./check in build/extract. *)
 From Coq Require Import Extraction ExtrOcamlBasic ExtrOcamlZBigInt.
-From TSS Require Import Base.Outcome Base.Bytes Base.ZMod Base.GoInt Model.Framing Model.Builder Model.Poly Model.Group Model.Curve Model.Paillier Model.Schnorr Model.MtA Model.ZKMod.
+From TSS Require Import Base.Outcome Base.Bytes Base.ZMod Base.GoInt Model.Framing Model.Builder Model.Poly Model.Group Model.Curve Model.Paillier Model.Schnorr Model.MtA Model.ZKMod Model.Engine.
 Extraction Language OCaml.
 Extraction "model.ml"
   Framing.sha512_256 Framing.sha512_256i Framing.sha512_256i_tagged Framing.sha512_256i_one
@@ -15,4 +15,5 @@ Extraction "model.ml"
   Schnorr.zk_prove Schnorr.zk_verify Schnorr.zkv_prove Schnorr.zkv_verify
   Schnorr.check_indexes Schnorr.vss_create Schnorr.vss_verify Schnorr.vss_reconstruct
   MtA.alice_prove MtA.alice_verify MtA.bob_prove MtA.bob_verify MtA.alice_init MtA.bob_mid MtA.alice_end
-  ZKMod.fac_prove ZKMod.fac_verify ZKMod.mod_prove ZKMod.mod_verify ZKMod.dln_prove ZKMod.dln_verify.
+  ZKMod.fac_prove ZKMod.fac_verify ZKMod.mod_prove ZKMod.mod_verify ZKMod.dln_prove ZKMod.dln_verify
+  Engine.init_state Engine.start Engine.deliver Engine.waiting Engine.finished Engine.running.
